@@ -79,6 +79,18 @@ def main():
     checks, na = [], []
     for pid in sorted(P):
         tech, text, note, ref = P[pid]
+        # the clause lists actually implemented are taken from the check's own evidence (written on every run)
+        try:
+            ev = json.load(open(os.path.join(HERE, "evidence", pid + ".json")))
+            ex = ev["coverage"]["explanation"]
+            dec = ex.split("DECIDED clauses: ", 1)[1].split(". NOT DECIDED", 1)[0]
+            nd = ex.split("NOT DECIDED (behavioural residue, not claimed): ", 1)[1].split(". An obligation is", 1)[0]
+            text = ("Static analysis; decides these structural necessary conditions of the property on every path / for every table entry: "
+                    + dec + ". NOT decided (not claimed): " + nd + ". Level 'other': named clauses, not the behavioural property as a whole.")
+            if len(text) > 6000:
+                text = text[:6000] + " …"
+        except Exception:
+            pass
         if pid in reg:
             checks.append({
                 "property_id": pid,
